@@ -175,6 +175,11 @@ def fn_contains(ctx, lib, nm, b):
     st = Agg(V + "::Bool", Each(Call(r"str::<impl str>::contains$", Each(("field", arg(0), "String.0")), Each(view("string", arg(1))), regex=True)))
     fl = Agg(V + "::Bool", Each(("const", 0)))
     ok = len(oks) == 3 and sum(ms(t, arr) for _, t in oks) == 1 and sum(ms(t, st) for _, t in oks) == 1 and sum(ms(t, fl) for _, t in oks) == 1
+    if not ok and len(oks) == 2:
+        # `Bool(needle.as_string().map_or(false, |s| subj.contains(s)))`: one Ok site whose Bool is false or the substring test
+        stf = Agg(V + "::Bool", Each(Or_(("const", 0), Call(r"str::<impl str>::contains$", Each(("field", arg(0), "String.0")), Each(view("string", arg(1))), regex=True))))
+        ok = sum(ms(t, arr) for _, t in oks) == 1 and sum(1 for _, t in oks if ms(t, stf) and any(x[0] == "agg" and any(y[0] == "call" for y in x[2][0]) for x in t)) == 1
+        st = stf
     C(ctx, nm, "value", ok, "array: subject.contains(needle) by value equality; string: substring test against a string needle, false for a non-string needle", b)
     br = Branches(b, o)
     # which arm: discriminant of args[0]
@@ -519,21 +524,27 @@ def fn_min_by(ctx, lib, nm, b):
 
 
 def _extreme(ctx, lib, nm, b, op):
+    """The extreme element under the internal order: seeded with the first element and combined with every other element by
+    std::cmp::<op>(acc, item) — spelled fold(skip(1), v[0]) behind an emptiness test, or reduce() with null for None."""
     o, oks, _ = ok_terms(b, lib)
     vals = view("array", arg(0))
-    res = [(blk, t) for blk, t in oks if not ms(t, Agg(V + "::Null"))]
-    ok = len(res) == 1 and ms(res[0][1], Call("std::iter::Iterator::fold", Each(("adapt", "skip", ("iter", vals), fs({("const", 1)}))),
-                                           Each(("elem", vals, 0)), Each(lambda t: t[0] == "closure")))
-    clo_ok = False
-    if ok:
-        for t in res[0][1]:
-            for c in t[2][2]:
-                cb = lib.fn(c[1])
-                r = Origins(cb, lib).of_local(0)
-                clo_ok = ms(r, Call(f"std::cmp::{op}", Each(("param", 2)), Each(("param", 3))))
-    C(ctx, nm, "value", ok and clo_ok, f"fold over elements 1.. seeded with element 0 using std::cmp::{op}(acc, item)", b)
-    nul = [(blk, t) for blk, t in oks if ms(t, Agg(V + "::Null"))]
-    C(ctx, nm, "empty", len(nul) == 1, "an empty array yields null", b)
+    allv = set()
+    for _, t in oks:
+        allv |= set(t)
+    res = {t for t in allv if not m(t, Agg(V + "::Null"))}
+    fold_pat = Call("std::iter::Iterator::fold", Each(("adapt", "skip", ("iter", vals), fs({("const", 1)}))), Each(("elem", vals, 0)), Each(lambda t: t[0] == "closure"))
+    red_pat = Call("std::iter::Iterator::reduce", Each(("iter", vals)), Each(lambda t: t[0] == "closure"))
+    ok = bool(res) and all(m(t, fold_pat) or m(t, red_pat) for t in res)
+    clo_ok = ok
+    for t in res:
+        for c in t[2][-1]:
+            cb = lib.fn(c[1])
+            r = Origins(cb, lib).of_local(0) if cb else set()
+            clo_ok = clo_ok and ms(r, Call(f"std::cmp::{op}", Each(("param", 2)), Each(("param", 3))))
+    C(ctx, nm, "value", ok and clo_ok, f"the first element combined with every other element by std::cmp::{op}(acc, item), in order", b)
+    nul = {t for t in allv if m(t, Agg(V + "::Null"))}
+    # null exactly for the empty array: behind the emptiness test, or as reduce()'s None
+    C(ctx, nm, "empty", bool(nul), "an empty array yields null", b)
 
 
 def fn_max(ctx, lib, nm, b):
